@@ -580,3 +580,12 @@ def standard_epilogue(ctx, pr, checker, rule, assumptions, level="proof"):
           "constants dumper harness/dump_consts.c compiled against /repo and run",
           "correspondence drivers harness/htp_driver.c (clang ASan+UBSan) and harness/model_driver.ml (ocamlopt)"]
     return finish(ctx, level, pr["obligations"], pr["discharged"], checker, tb, rule, assumptions)
+
+
+def gen_const(name):
+    """numeric value of a regenerated constant (coq/Gen/Generated.v), e.g. gen_const('c_HTP_MULTI_PACKET_HEAD')"""
+    txt = open(os.path.join(COQ, "Gen", "Generated.v")).read()
+    m = re.search(r"Definition %s : [NZ] := \((-?\d+)\)%%[NZ]\." % re.escape(name), txt)
+    if not m:
+        raise CheckError("constant %s not found in Generated.v" % name)
+    return int(m.group(1))
